@@ -8,6 +8,7 @@ import (
 	"fmt"
 	"os"
 	"path/filepath"
+	"regexp"
 	"runtime"
 	"sort"
 	"strings"
@@ -338,4 +339,19 @@ func excerpt(events []TAEvent, max int) []string {
 		}
 	}
 	return out
+}
+
+var normKeyDigits = regexp.MustCompile(`[0-9]+`)
+
+// normKey: a short, input-independent class for a final state / error text (digits and paths removed).
+func normKey(s string) string {
+	if i := strings.IndexAny(s, "\n|"); i >= 0 {
+		s = s[:i]
+	}
+	s = normKeyDigits.ReplaceAllString(s, "N")
+	s = strings.Join(strings.Fields(s), "-")
+	if len(s) > 50 {
+		s = s[:50]
+	}
+	return s
 }
